@@ -38,7 +38,9 @@ VItems == [v \in 1 .. NV |-> Items(Variants[v].kind, Variants[v].fill)]     \* e
 \* the variants that may expand the pending request h (at depth 0 only leaf variants, if the category has any);
 \* tabulated once per run (constant-level definitions are evaluated once by TLC)
 AllCats == UNION {Variants[v].cats : v \in 1 .. NV} \cup {RootCat, "inner", "nsitem", "top", "top1", "toplast", "nsonly"}
-CandBase == [c \in AllCats |-> [m \in 0 .. 31 |-> {v \in 1 .. NV : Usable(v) /\ InCat(v, c) /\ Variants[v].lvl >= m}]]
+UsableSet == {v \in 1 .. NV : Usable(v)}
+InCatSet == [c \in AllCats |-> {v \in UsableSet : InCat(v, c)}]
+CandBase == [c \in AllCats |-> [m \in 0 .. 31 |-> {v \in InCatSet[c] : Variants[v].lvl >= m}]]
 CandLeaf == [c \in AllCats |-> [m \in 0 .. 31 |-> {v \in CandBase[c][m] : Variants[v].leaf}]]
 Cands(h) == IF h.d > 0 \/ CandLeaf[h.cat][h.min] = {} THEN CandBase[h.cat][h.min] ELSE CandLeaf[h.cat][h.min]
 
@@ -64,9 +66,12 @@ GInit == /\ done = FALSE
               /\ todo = Rep([cat |-> RootCat, min |-> 0, d |-> Depth], n)
               /\ choices = << <<0, << <<n, FALSE>> >> >> >>
 
-Apply(h, v, lens) == LET d2 == IF h.d = 0 THEN 0 ELSE h.d - 1 IN
+\* (a derivation needs at least one more choice per pending request: successors that cannot finish within MaxChoices are not generated)
+Apply(h, v, lens) == LET d2 == IF h.d = 0 THEN 0 ELSE h.d - 1
+                         kids == Kids(VItems[v], lens, 1, 1, d2) IN
+                     /\ (MaxChoices = 0 \/ Len(choices) + 1 + Len(kids) + Len(todo) - 1 <= MaxChoices)
                      /\ choices' = Append(choices, <<v, lens>>)
-                     /\ todo' = Kids(VItems[v], lens, 1, 1, d2) \o Tail(todo)
+                     /\ todo' = kids \o Tail(todo)
 
 Expand == /\ todo # <<>> /\ ~done
           /\ (MaxChoices = 0 \/ Len(choices) + Len(todo) <= MaxChoices)
